@@ -20,6 +20,7 @@ import (
 	"fmt"
 	"os"
 	"sort"
+	"sync"
 	"time"
 
 	"gopkg.in/src-d/hercules.v10/verifapi"
@@ -54,7 +55,7 @@ func (o op) sx() Sx {
 		return T(o.kind, I(o.t), I(o.r))
 	case "deli", "next", "prev":
 		return T(o.kind, I(o.r))
-	case "len", "erase":
+	case "len", "erase", "fork", "hib":
 		return T(o.kind, I(o.t))
 	case "clone":
 		return T(o.kind, I(o.t), I(o.k))
@@ -88,7 +89,7 @@ func parseOp(s Sx) op {
 		o.t, o.r = g(0), g(1)
 	case "deli", "next", "prev":
 		o.r = g(0)
-	case "len", "erase":
+	case "len", "erase", "fork", "hib":
 		o.t = g(0)
 	case "clone":
 		o.t, o.k = g(0), g(1)
@@ -106,25 +107,40 @@ type reg struct {
 	key   uint32
 }
 
+// A world is 1..maxArenas allocators ("arenas"); arena 0 is the allocator the case starts with, every
+// (fork a) adds the arena Allocator.Clone() of arena a with the CloneShallow() of each of its trees.  Every
+// arena owns nt trees: the trees of arena j have the (global) indexes j*nt .. j*nt+nt-1.
+const maxArenas = 4
+
 type world struct {
-	alloc  *verifapi.Allocator
+	nt     int
+	allocs []*verifapi.Allocator
 	trees  []*verifapi.RBTree
 	regs   [nregs]reg
-	prev   verifapi.VerifAllocatorSnapshot
+	prev   []verifapi.VerifAllocatorSnapshot
+	first  []bool
 	prevH  []verifapi.VerifTreeHeader
-	first  bool
+	seenH  []bool
 	nIns   int
 	nDel   int
 	broken bool
 }
 
 func newWorld(n int) *world {
-	w := &world{alloc: verifapi.NewAllocator(), first: true}
+	w := &world{nt: n}
+	w.addArena(verifapi.NewAllocator())
 	for i := 0; i < n; i++ {
-		w.trees = append(w.trees, verifapi.NewRBTree(w.alloc))
+		w.trees = append(w.trees, verifapi.NewRBTree(w.allocs[0]))
 	}
-	w.prevH = make([]verifapi.VerifTreeHeader, n)
 	return w
+}
+
+func (w *world) addArena(a *verifapi.Allocator) {
+	w.allocs = append(w.allocs, a)
+	w.prev = append(w.prev, verifapi.VerifAllocatorSnapshot{})
+	w.first = append(w.first, true)
+	w.prevH = append(w.prevH, make([]verifapi.VerifTreeHeader, w.nt)...)
+	w.seenH = append(w.seenH, make([]bool, w.nt)...)
 }
 
 func (w *world) setReg(r, t int, it verifapi.Iterator) {
@@ -139,17 +155,41 @@ func (w *world) setReg(r, t int, it verifapi.Iterator) {
 	w.regs[r] = x
 }
 
-// delta of the arena, the headers and the registers since the previous operation
+// delta of the arenas, the headers and the registers since the previous operation.  The fields of arena 0
+// are fields of the observation itself; those of arena j > 0 are wrapped in (ar j ...), with (used n) = Used().
 func (w *world) delta() []Sx {
 	var out []Sx
-	s := w.alloc.VerifSnapshot()
+	for a := range w.allocs {
+		f := w.deltaArena(a)
+		if a == 0 {
+			out = append(out, f...)
+		} else {
+			out = append(out, T("ar", append([]Sx{I(a)}, f...)...))
+		}
+	}
+	var rg []Sx
+	for r := range w.regs {
+		x := &w.regs[r]
+		if x.valid && x.elem {
+			item := x.it.Item()
+			rg = append(rg, L(I(r), I(x.t), U64(uint64(x.it.VerifNode())), U64(uint64(item.Key)), U64(uint64(item.Value))))
+		}
+	}
+	out = append(out, T("rg", rg...))
+	return out
+}
+
+func (w *world) deltaArena(a int) []Sx {
+	var out []Sx
+	s := w.allocs[a].VerifSnapshot()
+	prev := w.prev[a]
 	out = append(out, T("sz", I(len(s.Storage))))
 	var cells []Sx
 	for i, c := range s.Storage {
-		if i < len(w.prev.Storage) && w.prev.Storage[i] == c {
+		if i < len(prev.Storage) && prev.Storage[i] == c {
 			continue
 		}
-		if i >= len(w.prev.Storage) && c == (verifapi.VerifNode{}) {
+		if i >= len(prev.Storage) && c == (verifapi.VerifNode{}) {
 			continue
 		}
 		col := 0
@@ -159,10 +199,10 @@ func (w *world) delta() []Sx {
 		cells = append(cells, L(I(i), U64(uint64(c.Key)), U64(uint64(c.Value)), U64(uint64(c.Parent)), U64(uint64(c.Left)), U64(uint64(c.Right)), I(col)))
 	}
 	out = append(out, T("d", cells...))
-	same := !w.first && len(s.Gaps) == len(w.prev.Gaps)
+	same := !w.first[a] && len(s.Gaps) == len(prev.Gaps)
 	if same {
 		for i := range s.Gaps {
-			if s.Gaps[i] != w.prev.Gaps[i] {
+			if s.Gaps[i] != prev.Gaps[i] {
 				same = false
 				break
 			}
@@ -175,24 +215,19 @@ func (w *world) delta() []Sx {
 		}
 		out = append(out, T("g", g...))
 	}
-	for t, tr := range w.trees {
-		h := tr.VerifHeader()
-		if w.first || h != w.prevH[t] {
+	for t := a * w.nt; t < (a+1)*w.nt; t++ {
+		h := w.trees[t].VerifHeader()
+		if !w.seenH[t] || h != w.prevH[t] {
 			out = append(out, T("h", I(t), U64(uint64(h.Root)), U64(uint64(h.MinNode)), U64(uint64(h.MaxNode)), I(int(h.Count))))
 			w.prevH[t] = h
+			w.seenH[t] = true
 		}
 	}
-	var rg []Sx
-	for r := range w.regs {
-		x := &w.regs[r]
-		if x.valid && x.elem {
-			item := x.it.Item()
-			rg = append(rg, L(I(r), I(x.t), U64(uint64(x.it.VerifNode())), U64(uint64(item.Key)), U64(uint64(item.Value))))
-		}
+	if len(w.allocs) > 1 {
+		out = append(out, T("used", I(w.allocs[a].Used())))
 	}
-	out = append(out, T("rg", rg...))
-	w.prev = s
-	w.first = false
+	w.prev[a] = s
+	w.first[a] = false
 	return out
 }
 
@@ -317,7 +352,7 @@ func (w *world) exec(o op) Sx {
 		return T("u")
 	case "clone":
 		s, d := o.t, o.k
-		if !okT(s) || !okT(d) || s == d || w.trees[d].Len() != 0 || w.trees[d].VerifHeader().Root != 0 {
+		if !okT(s) || !okT(d) || s == d || s/w.nt != d/w.nt || w.trees[d].Len() != 0 || w.trees[d].VerifHeader().Root != 0 {
 			return T("skip")
 		}
 		for r := range w.regs {
@@ -325,7 +360,7 @@ func (w *world) exec(o op) Sx {
 				w.regs[r].valid = false
 			}
 		}
-		w.trees[d] = w.trees[s].CloneDeep(w.alloc)
+		w.trees[d] = w.trees[s].CloneDeep(w.allocs[s/w.nt])
 		// the indexes malloc handed out, in allocation (= in-order) order, read through the iterator API
 		var ids []Sx
 		n := 0
@@ -334,27 +369,60 @@ func (w *world) exec(o op) Sx {
 			n++
 		}
 		return T("clone", ids...)
+	case "fork":
+		// the fork idiom of leaves/burndown.go: Allocator.Clone(), then CloneShallow() of every tree
+		a := o.t
+		if a < 0 || a >= len(w.allocs) || len(w.allocs) >= maxArenas {
+			return T("skip")
+		}
+		na := w.allocs[a].Clone()
+		w.addArena(na)
+		for t := a * w.nt; t < (a+1)*w.nt; t++ {
+			w.trees = append(w.trees, w.trees[t].CloneShallow(na))
+		}
+		return T("fork", I(len(w.allocs)-1))
+	case "hib":
+		// Hibernate + Boot of the allocator under living trees and iterators: nothing may change
+		a := o.t
+		if a < 0 || a >= len(w.allocs) {
+			return T("skip")
+		}
+		w.allocs[a].Hibernate()
+		w.allocs[a].Boot()
+		return T("u")
 	}
 	panic("unknown op " + o.kind)
 }
 
-func runCase(ntrees int, ops []op) (obs []Sx, w *world) {
+// the observations of the case that is running (read by emit when an operation does not return)
+type progress struct {
+	mu  sync.Mutex
+	obs []Sx
+}
+
+func (p *progress) put(o Sx) {
+	p.mu.Lock()
+	p.obs = append(p.obs, o)
+	p.mu.Unlock()
+}
+
+func runCase(ntrees int, ops []op, pr *progress) (w *world) {
 	w = newWorld(ntrees)
 	for _, o := range ops {
 		var res Sx
 		msg, p := Catch(func() { res = w.exec(o) })
 		if p {
 			_ = msg
-			obs = append(obs, T("o", T("panic")))
+			pr.put(T("o", T("panic")))
 			return
 		}
 		ob := []Sx{res}
 		msg, p = Catch(func() { ob = append(ob, w.delta()...) })
 		if p {
-			obs = append(obs, T("o", T("panic")))
+			pr.put(T("o", T("panic")))
 			return
 		}
-		obs = append(obs, T("o", ob...))
+		pr.put(T("o", ob...))
 		if w.broken {
 			return
 		}
@@ -368,21 +436,25 @@ type result struct {
 }
 
 func emit(c *Config, kind string, ntrees int, ops []op) {
-	ch := make(chan result, 1)
+	ch := make(chan *world, 1)
+	pr := &progress{}
 	go func() {
-		obs, w := runCase(ntrees, ops)
-		ch <- result{obs, w}
+		ch <- runCase(ntrees, ops, pr)
 	}()
 	var res result
 	hang := false
-	timer := time.NewTimer(3 * time.Second)
+	timer := time.NewTimer(15 * time.Second)
 	select {
-	case res = <-ch:
+	case w := <-ch:
 		timer.Stop()
+		res = result{obs: pr.obs, w: w}
 	case <-timer.C:
-		// an operation does not terminate (a cycle in the links): report it and stop - the runaway
-		// goroutine cannot be killed and may eat all memory (Erase appends while it iterates)
-		res = result{obs: []Sx{T("o", T("hang"))}, w: &world{}}
+		// an operation does not terminate (a cycle in the links): report it - after the observations of
+		// the operations before it - and stop: the runaway goroutine cannot be killed and may eat all
+		// memory (Erase appends while it iterates)
+		pr.mu.Lock()
+		res = result{obs: append(append([]Sx{}, pr.obs...), T("o", T("hang"))), w: &world{}}
+		pr.mu.Unlock()
 		hang = true
 	}
 	sops := make([]Sx, len(ops))
@@ -698,6 +770,7 @@ func main() {
 		exhaustive(c, 6, 4)
 	}
 	sharedFamilies(c)
+	forkFamilies(c)
 	for i := c.Count(1500, 12000); i > 0; i-- {
 		g := random(c)
 		emit(c, fmt.Sprintf("rnd%d", g.ntrees), g.ntrees, g.ops)
